@@ -28,3 +28,8 @@ add("C12","exploration",
  "Held on the generated (pattern, flags, options, mode) combinations counted in the evidence.",
  "Trusted: Go regexp; C03's reference context model; patterns without NUL/0xAC.",
  "DESIGN.md §2 C12")
+add("C16","exploration",
+ "runtime monitoring: seeded message/stream generator; Colorfy and the real client handlers run in crash-isolated child processes (coloured vs uncoloured stdout compared after stripping SGR sequences; uncoloured output compared with the message sequence); a harness-controlled SSH server plays the streams to the real dcat/dmap/dtailhealth binaries",
+ "Held on the generated messages and streams counted in the evidence.",
+ "Trusted: the SGR-strip regexp; both sides are stripped when the message itself contains ESC.",
+ "DESIGN.md §2 C16")
